@@ -1316,8 +1316,10 @@ c_rule_convfl (OrcCompiler *p, void *user, OrcInstruction *insn)
 
   ORC_ASM_CODE(p, "    {\n");
   ORC_ASM_CODE(p,"       int tmp;\n");
-  ORC_ASM_CODE(p,"       tmp = (int)%s;\n", src);
-  ORC_ASM_CODE(p,"       if (tmp == 0x80000000 && !(%s&0x80000000)) tmp = 0x7fffffff;\n", src_i);
+  /* converting a NaN or an out-of-range value is undefined in C (a compiler
+   * that knows the operand may fold it to anything): saturate explicitly */
+  ORC_ASM_CODE(p,"       if (%s >= -2147483648.0f && %s < 2147483648.0f) tmp = (int)%s;\n", src, src, src);
+  ORC_ASM_CODE(p,"       else tmp = (%s&0x80000000) ? 0x80000000 : 0x7fffffff;\n", src_i);
   ORC_ASM_CODE(p,"       %s = tmp;\n", dest);
   ORC_ASM_CODE(p, "    }\n");
 }
@@ -1333,8 +1335,8 @@ c_rule_convdl (OrcCompiler *p, void *user, OrcInstruction *insn)
 
   ORC_ASM_CODE(p, "    {\n");
   ORC_ASM_CODE(p,"       int tmp;\n");
-  ORC_ASM_CODE(p,"       tmp = (int)%s;\n", src);
-  ORC_ASM_CODE(p,"       if (tmp == 0x80000000 && !(%s & ORC_UINT64_C(0x8000000000000000))) tmp = 0x7fffffff;\n", src_i);
+  ORC_ASM_CODE(p,"       if (%s >= -2147483648.0 && %s < 2147483648.0) tmp = (int)%s;\n", src, src, src);
+  ORC_ASM_CODE(p,"       else tmp = (%s & ORC_UINT64_C(0x8000000000000000)) ? 0x80000000 : 0x7fffffff;\n", src_i);
   ORC_ASM_CODE(p,"       %s = tmp;\n", dest);
   ORC_ASM_CODE(p, "    }\n");
 }
